@@ -36,6 +36,7 @@ def run(prog, rep, tier='quick', config='default'):
     r4c(prog, rep)
     r4a2(prog, rep)
     r4d(prog, rep)
+    r4e(prog, rep)
 
 
 # ------------------------------------------------------------------------------------------------ R4a
@@ -380,3 +381,69 @@ def r4d(prog, rep):
                               detail='a %s can be produced for an affiliate whose previous status has no cost base (registered affiliates must never show one)' % what)
     if n < 4:
         rep.violation('R4d', 'anchor-lost:some-assignments', fn=f.name, detail='anchor lost: only %d Some(..) assignments of cost base / gain found' % n)
+
+
+# ------------------------------------------------------------------------------------------------ R4e
+DIV = re.compile(r'std::ops::Div(Assign)?::div(_assign)?$|::checked_div$')
+MUL = re.compile(r'std::ops::Mul(Assign)?::mul(_assign)?$|::checked_mul$|::mul_pos$')
+
+
+def returns_quotient(prog, g, depth=0, _memo={}):
+    """does crate function g return a value computed by a division (directly or through crate callees)?"""
+    if g.name in _memo:
+        return _memo[g.name]
+    _memo[g.name] = False
+    res = False
+    if depth < 4:
+        o = mir.provenance(g, {'k': 'copy', 'pl': {'l': 0, 'p': []}}, follow_all_call_args=True)
+        for c in o.calls:
+            if DIV.search(c.decl) or DIV.search(c.callee):
+                res = True
+                break
+            h = prog.resolve(c.callee, g.crate)
+            if h is not None and h is not g and returns_quotient(prog, h, depth + 1):
+                res = True
+                break
+    _memo[g.name] = res
+    return res
+
+
+def r4e(prog, rep):
+    """"rejected exactly when ... a whole-number reverse split would leave a fractional share": the balance whose integrality
+    decides the rejection must be exact whenever the true result is a whole number.  A product one of whose factors is itself a
+    rounded quotient (shares * (post / pre)) is not: 3 * (1/3) = 0.999..., so a legal split is rejected.  The quotient has to be
+    taken last ((shares * post) / pre)."""
+    from props import ledger
+    L = ledger.Ledger(prog)
+    if not rep.anchor('delta_for_tx (ledger step)', L.ok and L.fn):
+        return
+    f = L.fn
+    sites = [c for c in f.calls if c.short == 'is_integer' and c.bb in L.region['Split']]
+    if not sites:
+        rep.violation('R4e', 'anchor-lost:integrality-test', fn=f.name,
+                      detail='anchor lost: no is_integer() test in the Split arm of the ledger step')
+        return
+    for n, c in enumerate(sites, 1):
+        org = mir.provenance(f, c.args[0], follow_all_call_args=True)
+        bad = None
+        for m in org.calls:
+            if not (MUL.search(m.decl) or MUL.search(m.callee)):
+                continue
+            for a in m.args:
+                if not is_place(a):
+                    continue
+                oa = mir.provenance(f, a, follow_all_call_args=True)
+                for x in oa.calls:
+                    h = prog.resolve(x.callee, f.crate)
+                    if DIV.search(x.decl) or DIV.search(x.callee) or (h is not None and returns_quotient(prog, h)):
+                        bad = (m, x)
+        k = 'split-balance-exact-when-whole|integrality-test#%d' % n
+        if bad:
+            m, x = bad
+            rep.violation('R4e', k, where=m.where(), fn=f.name,
+                          detail='the share balance tested by is_integer() is a product (%s) with a factor that is already a rounded quotient '
+                                 '(%s): e.g. 3 shares through a 1-for-3 split give 0.999..., and a legal whole-number reverse split is rejected'
+                                 % (m.where(), short(x.callee)))
+        else:
+            rep.ok('R4e', k, where=c.where(), fn=f.name,
+                   detail='no factor of the tested balance is a quotient (the division, if any, is applied last)')
